@@ -14,7 +14,10 @@ Classes ==
   [ pattern   |-> {"valid", "empty", "bare_ellipsis", "unclosed", "number_type", "contextual", "bad_selector",
                    "skipped_token_then_ellipsis", "lone_sigil", "multibyte",
                    \* no pattern at all: the rule's only kind is the parser's ERROR kind (numbered above the grammar's kinds)
-                   "none_kind_error", "none_any_error"},
+                   "none_kind_error", "none_any_error",
+                   \* two ellipses side by side followed by a node, in a child list that no closing token ends (the statements
+                   \* of a `case`): the second ellipsis is reached with one sibling left
+                   "adjacent_ellipses_open_list"},
     kind      |-> {"absent", "valid", "unknown", "list_type", "empty"},
     regex     |-> {"absent", "valid", "invalid", "empty", "lookaround"},
     nthChild  |-> {"absent", "one", "anb", "overflow", "garbage", "negative", "of_self_util", "zero", "object_missing_position",
